@@ -98,12 +98,13 @@ OPTYPES = {"lock": ("MUTEX_ASYNC_LOCK", "MUTEX_WAIT"), "trylock": ("MUTEX_TRYLOC
            "put": ("iSend", "WaitComm"), "get": ("iRecv", "WaitComm"), "puta": ("iSend",), "putd": ("iSend",),
            "geta": ("iRecv",), "wait": ("WaitComm",), "test": ("TestComm",), "sleep": ("ActorSleep",)}
 
-def executions(prog, res):
+def executions(prog, res, indices=False):
     """The executions explored by one simgrid-mc run (result of mcbind_common.run_simgrid_mc): one list of steps per
     application process, every step carrying the checker's view (the steps of a replayed prefix take the view recorded when
     the same path of (actor, times_considered) was first executed); the communication of a TestComm, which the checker's
     text does not show, is the one of the asynchronous operation of the same actor the program tests.
-    Returns (executions, number of executions dropped because a view was missing)."""
+    Returns (executions, number of executions dropped because a view was missing); with indices=True the executions
+    are (index of the trace in res["traces"], steps)."""
     by_path = {}
     raw = []
     for t in res["traces"]:
@@ -122,7 +123,7 @@ def executions(prog, res):
                 steps.append(s)
         raw.append(steps)
     out, dropped = [], 0
-    for steps in raw:
+    for ti, steps in enumerate(raw):
         ok = True
         for s in steps:
             if "ctype" not in s:
@@ -145,5 +146,5 @@ def executions(prog, res):
                 o = prog["actors"][s["a"] - 1][s["k"] - 1]["o"]
                 lst = asyncs.get(s["a"], [])
                 s["ccomm"] = lst[o - 1] if 0 < o <= len(lst) else 0
-        out.append(steps)
+        out.append((ti, steps) if indices else steps)
     return out, dropped
